@@ -193,7 +193,11 @@ func (r *Run) Finish() int {
 	defer r.mu.Unlock()
 	wall := time.Since(r.start).Seconds()
 	vd := VerifDir()
-	os.MkdirAll(filepath.Join(vd, "evidence"), 0o755)
+	evDir := filepath.Join(vd, "evidence")
+	if d := os.Getenv("VERIF_EVIDENCE_DIR"); d != "" {
+		evDir = d // seeded-change runs keep their evidence away from the committed files
+	}
+	os.MkdirAll(evDir, 0o755)
 	os.MkdirAll(filepath.Join(vd, "replay"), 0o755)
 
 	exit := 0
@@ -296,7 +300,7 @@ func (r *Run) Finish() int {
 		ev["assumptions"] = []string{}
 	}
 	data, _ := json.MarshalIndent(ev, "", " ")
-	if err := os.WriteFile(filepath.Join(vd, "evidence", r.ID+".json"), data, 0o644); err != nil {
+	if err := os.WriteFile(filepath.Join(evDir, r.ID+".json"), data, 0o644); err != nil {
 		fmt.Fprintf(os.Stderr, "cannot write evidence: %v\n", err)
 		if exit == 0 {
 			exit = 3
